@@ -65,6 +65,7 @@ Proof.
       { constructor; auto.
         - left. repeat split; eauto.
         - repeat split.
+        - reflexivity.
         - apply sfacts_found; assumption. }
       rewrite sl_known_tail in E.
       * apply (K_any hstate dec_field enc_field enc_set_max cfg c s ph fr ec' c1 st _ _ KI Kok E).
@@ -90,6 +91,7 @@ Proof.
         { constructor; auto.
           - right. exists st. rewrite C2. cbn. repeat split; auto.
           - rewrite C2. repeat split.
+          - rewrite C2. destruct (fkind_eqb (sf_kind fr) KHeaders); reflexivity.
           - apply (sfacts_created hstate dec_field enc_set_max c s ph fr ec' c2 st HS Od T KHb U). }
         rewrite sl_known_tail in E.
         -- apply (K_any hstate dec_field enc_field enc_set_max cfg c s ph fr ec' c2 st _ _ KI Kok E).
